@@ -1439,6 +1439,55 @@ func plainErrorUse(v ssa.Value, depth int) bool {
 			if _, ok := u.Addr.(*ssa.Alloc); !ok {
 				return false
 			}
+		case *ssa.MakeInterface:
+			// handed to a logger and nothing else: writing an error to the debug log does not handle it
+			if !onlyLogged(u) {
+				return false
+			}
+		default:
+			return false
+		}
+	}
+	return true
+}
+
+// onlyLogged: the interface value is only stored into the variadic argument array of logger calls.
+func onlyLogged(mi *ssa.MakeInterface) bool {
+	refs := mi.Referrers()
+	if refs == nil {
+		return false
+	}
+	for _, r := range *refs {
+		switch u := r.(type) {
+		case *ssa.DebugRef:
+		case *ssa.Store:
+			ia, ok := u.Addr.(*ssa.IndexAddr)
+			if !ok || u.Val != ssa.Value(mi) {
+				return false
+			}
+			al, ok := ia.X.(*ssa.Alloc)
+			if !ok || al.Comment != "varargs" {
+				return false
+			}
+			// every use of the array: element addresses and one slice handed to a logger
+			for _, ar := range *al.Referrers() {
+				switch x := ar.(type) {
+				case *ssa.IndexAddr, *ssa.DebugRef:
+				case *ssa.Slice:
+					for _, sr := range *x.Referrers() {
+						ci, ok := sr.(ssa.CallInstruction)
+						if !ok {
+							return false
+						}
+						callee := ci.Common().StaticCallee()
+						if callee == nil || !isLogger(callee) {
+							return false
+						}
+					}
+				default:
+					return false
+				}
+			}
 		default:
 			return false
 		}
